@@ -403,7 +403,7 @@ def slot_weight(sl, dom):
     return 1 + len(sl.members)
 
 
-def partitions(slots, dom, budget, nparts, rng, must_free=()):
+def partitions(slots, dom, budget, nparts, rng, must_free=(), fix_first="values"):
     """-> list of `fixed` dicts.  If the whole space fits the path budget: one partition with nothing fixed
     (complete).  Otherwise `nparts` partitions, each fixing a seeded selection of slots to seeded representative
     values until the free remainder fits (sampled partitioning: stated as such in the evidence)."""
@@ -416,6 +416,11 @@ def partitions(slots, dom, budget, nparts, rng, must_free=()):
     for _ in range(nparts):
         order = [sl for sl in slots if sl.name not in must_free]
         rng.shuffle(order)
+        # fix the value-carrying options first: bools (the variables of almost every condition) and choice picks
+        # stay symbolic as long as possible
+        # (fix_first="bools" for checks whose subject is the numeric values themselves)
+        valk = ("int", "hex", "float", "string")
+        order.sort(key=lambda sl: (0 if sl.kind in valk else 1) if fix_first == "values" else (1 if sl.kind in valk else 0))
         fixed = {}
         w = total
         for sl in order:
